@@ -391,8 +391,17 @@ func RuleE2b(c *Ctx) {
 // ---------------------------------------------------------------- E3(i) value memo
 
 // RuleE3i: a cached value depends on nothing its key does not cover.
-func RuleE3i(c *Ctx) {
-	sc := c.Run.Begin("E3i", "for every value memo `if v, ok := M[k]; ok { return v }; v = compute(x); M[k] = v` the leaf fields the computation reads are covered by what the key is computed from (a cache hit can never return a value built from different inputs)", 1)
+func RuleE3i(c *Ctx) { ruleMemo(c, false) }
+
+// RuleME1: what a memo hands out is not changed by the callers that receive it.
+func RuleME1(c *Ctx) { ruleMemo(c, true) }
+
+func ruleMemo(c *Ctx, sharedOnly bool) {
+	id, what, floor := "E3i", "for every value memo `if v, ok := M[k]; ok { return v }; v = compute(x); M[k] = v` the leaf fields the computation reads are covered by what the key is computed from (a cache hit can never return a value built from different inputs)", 1
+	if sharedOnly {
+		id, what, floor = "ME1", "for every value memo whose value is a map, slice or pointer, no caller that receives the value changes it (a hit hands out the same object again)", 0
+	}
+	sc := c.Run.Begin(id, what, floor)
 	defer sc.End()
 	n := 0
 	perFn := map[string]int{}
@@ -487,6 +496,62 @@ func RuleE3i(c *Ctx) {
 				}
 			}
 			sort.Strings(missing)
+			// a hit hands out the very object the first caller got: no consumer may change it
+			// (a map from which matched entries are deleted comes back emptied)
+			if self, _ := info.Defs[fd.Name].(*types.Func); self != nil && sharedOnly {
+				switch info.TypeOf(vid).Underlying().(type) {
+				case *types.Map, *types.Slice, *types.Pointer:
+					for _, cs := range c.callSitesOf(self) {
+						cinfo := cs.Pk.TypesInfo
+						ccf := c.CFG(cs.Pk, cs.Body)
+						var holder types.Object
+						ast.Inspect(cs.Body, func(y ast.Node) bool {
+							if a2, ok := y.(*ast.AssignStmt); ok && len(a2.Rhs) == 1 && ast.Unparen(a2.Rhs[0]) == ast.Expr(cs.Call) && len(a2.Lhs) >= 1 {
+								if hid, ok := a2.Lhs[0].(*ast.Ident); ok {
+									holder = cinfo.ObjectOf(hid)
+								}
+							}
+							return true
+						})
+						if holder == nil {
+							continue
+						}
+						_ = ccf
+						mut := ""
+						ast.Inspect(cs.Body, func(y ast.Node) bool {
+							switch z := y.(type) {
+							case *ast.CallExpr:
+								if fid, ok := z.Fun.(*ast.Ident); ok && fid.Name == "delete" && len(z.Args) == 2 {
+									if a0, ok := ast.Unparen(z.Args[0]).(*ast.Ident); ok && cinfo.ObjectOf(a0) == holder {
+										mut = "delete at " + c.P.Pos(z.Pos())
+									}
+								}
+							case *ast.AssignStmt:
+								for _, l := range z.Lhs {
+									switch lx := ast.Unparen(l).(type) {
+									case *ast.IndexExpr:
+										if a0, ok := ast.Unparen(lx.X).(*ast.Ident); ok && cinfo.ObjectOf(a0) == holder {
+											mut = "element store at " + c.P.Pos(z.Pos())
+										}
+									case *ast.SelectorExpr:
+										if a0, ok := ast.Unparen(lx.X).(*ast.Ident); ok && cinfo.ObjectOf(a0) == holder {
+											mut = "field store at " + c.P.Pos(z.Pos())
+										}
+									}
+								}
+							}
+							return true
+						})
+						if mut != "" {
+							sc.Violation(key+":shared", c.P.Pos(cs.Call.Pos()), fmt.Sprintf("the memoised %s is handed out to every caller with the same key and this caller changes it (%s): the next hit returns the changed object - a property index from which the matched names were deleted comes back empty for the next Path directive with the same body", types.TypeString(info.TypeOf(vid), types.RelativeTo(pk.Types)), mut))
+						}
+					}
+				}
+			}
+			if sharedOnly {
+				sc.Info(key, c.P.Pos(as.Pos()), "memo examined for consumers that change the value")
+				return true
+			}
 			if len(missing) == 0 {
 				sc.Holds(key, c.P.Pos(as.Pos()), fmt.Sprintf("value reads %s; all covered by the key", leafList(valueLeaves)))
 			} else {
